@@ -365,7 +365,36 @@ def build (P : Prims) (F : Scalars S) (secret : S) (coeff : Nat → S) (nonce : 
             .ok { envelopeId := envId, contextHash := P.ctxHash ctx, threshold := cfg.threshold,
                   ciphertext := ciphertext, grants := gs, keypairs := keypairs }
 
+/-- `BuildEnvelope` with a possibly nil `*EnvelopeConfig` (`none`): every getter of a nil config
+returns the zero value, so `config == nil || len(config.GetGrantConfigs()) == 0` is the
+`noGrants` test on the zero configuration. -/
+def buildOpt (P : Prims) (F : Scalars S) (secret : S) (coeff : Nat → S) (nonce : Bytes)
+    (ctx payload : Bytes) (keypairs : List Bytes) (cfg : Option Config) : Outcome Envelope :=
+  build P F secret coeff nonce ctx payload keypairs (cfg.getD {})
+
+/-- `BuildEnvelope` when some recipient keys are of a type that `peer.EncryptToPubKey` and
+`keypem.MarshalPubKeyPem` do not support (`none`; a supported key is given by its PEM bytes).
+The structural checks come first; after them an unsupported key fails either the encryption of
+a grant that names it or, at the latest, the PEM marshalling of the keypair list. -/
+def buildKeys (P : Prims) (F : Scalars S) (secret : S) (coeff : Nat → S) (nonce : Bytes)
+    (ctx payload : Bytes) (keys : List (Option Bytes)) (cfg : Option Config) : Outcome Envelope :=
+  match buildOpt P F secret coeff nonce ctx payload (keys.map fun k => k.getD []) cfg with
+  | .ok env => if keys.all Option.isSome then .ok env else .err .encrypt
+  | .err e => .err e
+  | .panic => .panic
+
 end Build
+
+/-! ### what is hashed (operands of the BLAKE3 calls; the hash itself is a parameter) -/
+
+/-- `hashContext(context)` hashes the whole context string. -/
+def ctxHashPreimage (ctx : Bytes) : Bytes := ctx
+
+/-- an auto-generated envelope id hashes `secret ‖ context` … -/
+def idPreimage (secretBytes ctx : Bytes) : Bytes := secretBytes ++ ctx
+
+/-- … and is the lower-case hex form of the first 16 digest bytes (32 characters). -/
+def autoIdDigestBytes : Nat := 16
 
 /-! ### UnlockEnvelope -/
 
